@@ -32,16 +32,16 @@ const (
 )
 
 type c20Script struct {
-	Name         string
-	NoListener   string // "", "missing", "regular-file", "too-long"
-	Read         string // full | none | half
-	Reply        []byte
-	Chunks       []int
-	DelayMs      int // before the first reply byte
-	BetweenMs    int
-	End          string // close | hold
-	CloseEarly   string // "", "before-read", "after-read"
-	HoldMs       int
+	Name       string
+	NoListener string // "", "missing", "regular-file", "too-long"
+	Read       string // full | none | half
+	Reply      []byte
+	Chunks     []int
+	DelayMs    int // before the first reply byte
+	BetweenMs  int
+	End        string // close | hold
+	CloseEarly string // "", "before-read", "after-read"
+	HoldMs     int
 }
 
 type c20Case struct {
@@ -61,19 +61,19 @@ type c20Case struct {
 }
 
 type c20Obs struct {
-	Accepted   bool
-	Request    []byte
-	SentBytes  int
-	SentAt     time.Duration // when the last reply byte was handed to the kernel, since accept
-	Closed     bool
+	Accepted  bool
+	Request   []byte
+	SentBytes int
+	SentAt    time.Duration // when the last reply byte was handed to the kernel, since accept
+	Closed    bool
 }
 
 type c20Out struct {
 	RC, Selects, Reads, Writes, Unguarded, NonFinite int
-	MaxSelTimeout                                     float64
-	ElapsedMs                                         int
-	AuthtokSet                                        int
-	Finished                                          bool
+	MaxSelTimeout                                    float64
+	ElapsedMs                                        int
+	AuthtokSet                                       int
+	Finished                                         bool
 }
 
 func c20Part(payload []byte, announced int) []byte {
@@ -236,7 +236,8 @@ func c20Cases(rng *rand.Rand, encoderOnly bool) []c20Case {
 
 // c20EffectivePw: which password the module obtains in this harness (nil, false = acquisition fails).
 // pwsrc: stack = PAM_AUTHTOK holds the password, conversation would return "";
-//        conv = nothing on the stack, conversation returns the password; none = nothing on the stack, conversation returns "".
+//
+//	conv = nothing on the stack, conversation returns the password; none = nothing on the stack, conversation returns "".
 func c20EffectivePw(c c20Case) ([]byte, bool) {
 	use, try := false, false
 	for _, o := range c.Opts {
@@ -306,7 +307,7 @@ func c20(encoderOnly bool) {
 		return
 	}
 	dir := filepath.Join(workDir(), "c20")
-	os.RemoveAll(dir)                         //nolint:errcheck
+	os.RemoveAll(dir)                          //nolint:errcheck
 	os.MkdirAll(filepath.Join(dir, "s"), 0700) //nolint:errcheck
 	cases := c20Cases(rng, encoderOnly)
 	valgrind := os.Getenv("VERIF_PAMH_VALGRIND") == "1"
